@@ -113,6 +113,18 @@ package blob
 //@   modifies nothing
 //@ extern func os.(*File).Truncate
 //@   modifies nothing
+// (C08 extension) direct writes through a file handle count as bytes accepted by it, as writes through io.Writer do
+//@ extern func os.(*File).Write
+//@   modifies this.ghost_len, this.ghost_stream
+//@   ensures 0 <= result.0 && result.0 <= len(b)
+//@   ensures result.0 < len(b) ==> result.1 != nil
+//@   ensures this.ghost_len == old(this.ghost_len) + result.0
+//@   ensures this.ghost_stream == sapp(old(this.ghost_stream), b, result.0)
+//@ extern func os.(*File).WriteString
+//@   modifies this.ghost_len, this.ghost_stream
+//@   ensures 0 <= result.0 && result.0 <= len(s)
+//@   ensures result.0 < len(s) ==> result.1 != nil
+//@   ensures this.ghost_len == old(this.ghost_len) + result.0
 //@ extern func os.Remove
 //@   modifies nothing
 //@ extern func os.Chtimes
@@ -253,6 +265,9 @@ package blob
 // only the engine gap: that the ghost fields of the interface value cw.w are those of the pointer f.)
 //@   assert-at call io.Copy #1 : f.ghost_len == 0 && f.ghost_stream == 0 && f.ghost_ishash == 0
 //@   assert-at call io.Copy #1 : tagis(cw.w, "*os.File")
+// (the same fact stated where the gated writer is being built, i.e. BEFORE the A-open assumption is in force: at
+// `call io.Copy` the engine may derive f's ghost fields from the assumption made on cw.w at that same site)
+//@   assert-at call crypto/sha256.New #1 : f.ghost_len == 0 && f.ghost_stream == 0 && f.ghost_ishash == 0
 
 // ---- Put / Link / Get / Resolve / Import / Unlink -----------------------------------------------
 
@@ -748,3 +763,11 @@ package blob
 //@   modifies nothing
 //@   assert-at call strings.TrimPrefix #1 : arg0 == s && arg1 == "manifests/"
 //@   loop 1 invariant i < len(rr)
+
+// Links, the iterator body around that loop: what is listed are the links of THIS cache (c.links()), and the
+// loop body above is the only consumer the listing is handed to.
+// (`panic` is left out of the safe list: the only panic is the compiler-generated range-over-func guard "iterator
+// call did not preserve panic", reachable for the engine because the call through the iter.Seq2 value is opaque)
+//@ func (*DiskCache).Links$1
+//@   opt safe index,slice,div,typeassert,makeslice,shift,nilmap
+//@   assert-at call links #1 : arg0 == c
